@@ -100,7 +100,23 @@ func TestVerifC14(t *testing.T) {
 				name string
 			}
 			gs := []gsel{{gm, "multimember"}}
-			if s == 0 {
+			if s == 0 && si%4 == 3 {
+				// the sender is another device of the RECEIVER's account: in the account group and in the account's contact
+				// groups it acts under one and the same device key, so the receiver follows that one device in two groups
+				snd = recv.newSiblingDevice("S0")
+				ga, _, err := snd.ss.GetGroupForAccount()
+				if err != nil {
+					rep.Inconclusivef("account group: %v", err)
+					return
+				}
+				gct, err := snd.ss.GetGroupForContact(newVStore("Y", W, R).accountPK())
+				if err != nil {
+					rep.Inconclusivef("contact group: %v", err)
+					return
+				}
+				gs = []gsel{{ga, "account(sibling-sender)"}, {gct, "contact(sibling-sender)"}}
+				rep.Count("sessions_with_one_sender_device_in_two_groups", 1)
+			} else if s == 0 {
 				gc, err := snd.ss.GetGroupForContact(recv.accountPK())
 				if err != nil {
 					rep.Inconclusivef("contact group: %v", err)
